@@ -5,7 +5,7 @@ for sid, pc, ipc, tier in GEOMS:
     un = 'pool_s%d_c%d_i%d' % (sid, pc, ipc)
     UNITS.append(Unit(un, 'wrappers/pool.cpp', defs=['ARDUINOJSON_SLOT_ID_SIZE=%d' % sid, 'ARDUINOJSON_POOL_CAPACITY=%d' % pc, 'ARDUINOJSON_INITIAL_POOL_COUNT=%d' % ipc,
                                                          'ARENA_N=3', 'ARENA_CHUNK=%d' % max(512, pc * 16 + 64), 'TABLE=%d' % (2 * (255 // pc + 1) + 8)]))
-    OBS.append(Ob(['C19', 'C04', 'C05', 'C06'], 'alloc_' + un, un, 'harness/pool.c', 'h_pool_alloc', defs=['UNIT_H="%s.h"' % un], unwind=12, tier=tier, cap=300, hunwind=12, fs='none',
+    OBS.append(Ob(['C19', 'C04', 'C05', 'C06'], 'alloc_' + un, un, 'harness/pool.c', 'h_pool_alloc', defs=['UNIT_H="%s.h"' % un], unwind=12, tier=tier, cap=(300 if tier == 'quick' else 900), hunwind=12, fs='none',
                   desc='MemoryPoolList::allocSlot inductive step (SLOT_ID_SIZE=%d, POOL_CAPACITY=%d, INITIAL_POOL_COUNT=%d): invariant re-established, id arithmetic, maxPools, clean failure when full or out of memory' % (sid, pc, ipc),
                   bound='every pool-table state satisfying the invariant x every allocator-failure subset of the step (3 calls)'))
 OBS.append(Ob(['C19', 'C06', 'C03'], 'strnode_len2', 'pool_s1_c16_i4', 'harness/pool.c', 'h_strnode', defs=['UNIT_H="pool_s1_c16_i4.h"'], unwind=4, cap=100, desc='StringNode::create: length cap before allocation, exact request size, no narrowing (STRING_LENGTH_SIZE=2)', bound='length symbolic over all of size_t'))
